@@ -728,7 +728,7 @@ Proof.
   - (* OAccept *)
     destruct (_ && _); [|exact H].
     pose proof (AccInv_k_poll_accept k acc fd H) as H1.
-    destruct (k_poll_accept k fd) as [k1 [|[c p]|er]]; cbn [fst snd okk acc_log] in *; exact H1.
+    destruct (k_poll_accept k fd) as [k1 [|[c p]|er]]; cbn [fst snd okk acc_log] in *; try exact H1. exact H.
   - destruct (own _ fd); [|exact H]. apply AccInv_k_poll_send, H.
   - destruct (own _ fd); [|exact H]. apply AccInv_k_poll_recv, H.
   - destruct (own _ fd); [|exact H]. apply AccInv_k_poll_shutdown, H.
